@@ -42,6 +42,7 @@ for _k, _v in T.items():
 SWAP = {'int': 'uint', 'uint': 'int', 'i32': 'u32', 'u32': 'i32', 'i64': 'int', 's16': 's16b', 's16b': 's16', 'pi': 'ps', 'ps': 'pi'}
 NILABLE = {'iface', 'ptr', 'slice', 'map', 'array', 'chan'}
 lst = Z.lst
+INAMES = ','.join(sorted(Z.IMETHODS))
 
 
 def other_size(tok, rng, k=1):
@@ -228,13 +229,13 @@ class Gen:
         rng = self.rng
         for name, (mins, mouts) in Z.IMETHODS.items():
             full = ['ictx'] + mins
-            for vk in ('ok', 'nonptr', 'int', 'pint', 'pstruct'):
+            for vk in ('ok', 'nonptr', 'int', 'pint', 'pstruct', 'slice', 'array', 'map', 'chan', 'func', 'pptr', 'nilv'):
                 h = f'iface {vk} {name} 1 {lst(mins)} {lst(mouts)}'
                 self.add(f'{h} apply {lst(full)} {lst(mouts)}', 'accept' if vk == 'ok' else 'iface-kind:' + vk)
                 self.add(f'{h} as {lst(full)} {lst(mouts)} return {lst(mouts)}', 'accept' if vk == 'ok' else 'iface-kind:' + vk)
             h = f'iface ok {name} 1 {lst(mins)} {lst(mouts)}'
             for bad in ('Nope', name.lower(), '-'):
-                for vk in ('ok', 'pstruct', 'pint', 'int'):
+                for vk in ('ok', 'pstruct', 'pint', 'int', 'slice', 'map', 'pptr'):
                     self.add(f'iface {vk} {bad} 0 {lst(mins)} {lst(mouts)} apply {lst(full)} {lst(mouts)}',
                              'method-empty' if bad == '-' else 'method-unknown')
             # callback mistakes
@@ -364,7 +365,7 @@ class Gen:
             emit_m()
         for name, (mins, mouts) in Z.IMETHODS.items():
             full = ['ictx'] + mins
-            hi = f'seqi {name} {lst(mins)} {lst(mouts)} {lst(full)} {lst(mouts)}'
+            hi = f'seqi {name} {INAMES} {lst(mins)} {lst(mouts)} {lst(full)} {lst(mouts)}'
             okr, oka = lst(mouts), lst(mins)
             if mouts:
                 for (g, tag) in self.group_cases(mouts):
@@ -379,6 +380,72 @@ class Gen:
                 for (st, tag) in self.follow_cases(mins, mouts):
                     self.add(f'{hi} {rng.choice(firsts)} ; {st}', tag)
                     self.add(f'{hi} {rng.choice(firsts)} ; again ; {st}', tag)
+
+    # ---- retries: a test that recovers from the panic and configures again (every step runs, also after a rejection)
+    def gen_retry(self):
+        rng = self.rng
+
+        def bad_first_calls(ins, outs, var, cbins):
+            """(step, good-step, kind) samples of rejected FIRST configuration calls and a correct call of the same kind"""
+            out = []
+            okcb = f'apply {lst(cbins)} {lst(outs)} {int(var)}'
+            cbs = self.cb_mistakes(cbins, outs, var)
+            for (ci, co, cv, tag) in [rng.choice(cbs) for _ in range(3)] if cbs else []:
+                out.append((f'apply {lst(ci)} {lst(co)} {int(bool(cv))}', okcb, 'apply'))
+            out.append((f'applyval {rng.choice(["int", "str", "nil", "sl"])}', okcb, 'apply'))
+            if outs:
+                bads = [(v, t) for (v, t) in self.ret_cases(outs) if t != 'accept']
+                for (vals, tag) in [rng.choice(bads) for _ in range(3)]:
+                    out.append((f'return {lst(vals)}', f'return {lst(outs)}', 'return'))
+                gb = [(g, t) for (g, t) in self.group_cases(outs) if t != 'accept']
+                for (g, tag) in [rng.choice(gb) for _ in range(2)]:
+                    out.append((f'returns {g}', f'returns {lst(outs)}|{lst(outs)}', 'returns'))
+            wb = [(a, t) for (a, t) in self.when_cases(ins, var) if t != 'accept']
+            if wb and not var and ins:
+                for (args, tag) in [rng.choice(wb) for _ in range(2)]:
+                    out.append((f'when {lst(args)}', f'when {lst(ins)} ; return {lst(outs)}', 'when'))
+            return out
+
+        def emit(head, ins, outs, var, cbins, unknown=None):
+            for (bad, good, kind) in bad_first_calls(ins, outs, var, cbins):
+                ngood = good.count(' ; ') + 1
+                self.add(f'{head} {bad} ; {bad}', 'rt:R,R')
+                self.add(f'{head} {bad} ; {bad} ; {good}', 'rt:R,R' + ',A' * ngood)
+            # a valid stub first, then an ill-formed Apply: the stub must keep answering
+            firsts = ([f'return {lst(outs)}'] if outs else []) + ([f'when {lst(ins)} ; return {lst(outs)}'] if ins and not var else [])
+            cbs = self.cb_mistakes(cbins, outs, var)
+            for first in firsts:
+                n1 = first.count(' ; ') + 1
+                picks = [rng.choice(cbs) for _ in range(3)] if cbs else []
+                for (ci, co, cv, tag) in picks:
+                    self.add(f'{head} {first} ; again ; apply {lst(ci)} {lst(co)} {int(bool(cv))}', 'rt:' + 'A,' * (n1 + 1) + 'R')
+                for tok in ('int', 'nil', 'str'):
+                    self.add(f'{head} {first} ; again ; applyval {tok}', 'rt:' + 'A,' * (n1 + 1) + 'R')
+            if unknown:
+                good = f'return {lst(outs)}' if outs else f'apply {lst(cbins)} {lst(outs)} {int(var)}'
+                for bad in unknown:
+                    self.add(f'{head} lookup {bad} 0 ; lookup {bad} 0', 'rt:R,R')
+                    self.add(f'{head} lookup {bad} 0 ; lookup {bad} 0 ; {good}', 'rt:R,R,A')
+                    self.add(f'{head} {good} ; lookup {bad} 0 ; lookup {bad} 0', 'rt:A,R,R')
+
+        for name, (ins, outs, var) in Z.FUNCS.items():
+            emit(f'rtf {name} {lst(ins)} {lst(outs)} {int(var)} {rng.below(2)}', ins, outs, var, ins)
+        for name, (ins0, outs, var) in Z.METHODS.items():
+            full = ['prc'] + ins0
+            emit(f'rtm {name} {lst(full)} {lst(outs)} {int(var)}', ins0, outs, var, full, unknown=['Nope', name.lower(), '-'])
+        for name, (mins, mouts) in Z.IMETHODS.items():
+            full = ['ictx'] + mins
+            head = f'rti {name} {INAMES} {lst(mins)} {lst(mouts)} {lst(full)} {lst(mouts)}'
+            emit(head, mins, mouts, False, full, unknown=['Nope', name.lower(), name + 'x', '-'])
+            # an ill-fitting As() stub, configured again and again, then a fitting one
+            for (ci, co, cv, tag) in self.cb_mistakes(mins, mouts, False):
+                bad_as = f'as {lst(["ictx"] + ci)} {lst(co)}'
+                good_as = f'as {lst(full)} {lst(mouts)}'
+                calls = [f'return {lst(co)}'] + ([f'when {lst(ci)}'] if ci and len(ci) == len(mins) else []) + ([f'returns {lst(co)}|{lst(co)}'] if co else [])
+                call = rng.choice(calls)
+                self.add(f'{head} {bad_as} ; {call} ; {call}', 'rt:A,R,R')
+                if rng.chance(1, 2):
+                    self.add(f'{head} {bad_as} ; {call} ; {good_as} ; return {lst(mouts)}', 'rt:A,R,A,A')
 
     def gen_random(self, n):
         """random signatures are impossible (targets are real functions); random LANES: re-draw the offending types/positions"""
@@ -421,7 +488,8 @@ def generate(tier, rng):
     g.gen_export()
     g.gen_iface()
     g.gen_seq()
-    g.gen_random(400 if tier == 'quick' else 12000)
+    g.gen_retry()
+    g.gen_random(200 if tier == 'quick' else 12000)
     seen, ops, tags = set(), [], []
     for o, t in zip(g.ops, g.tags):
         if o not in seen:
@@ -436,7 +504,8 @@ def generate(tier, rng):
 WALK_SPEC = {  # mistake -> type the erro.Cause walk must end at (prefix)
     'ret-few': 'returnsnotmatch', 'when-few': 'argsnotmatch',
     'iface-cb-count-in': 'illegalparam', 'iface-cb-count-out': 'illegalparam', 'iface-first': 'illegalparamtype',
-    'iface-kind:pstruct': 'illegalparamtype',
+    'iface-kind:pstruct': 'illegalparamtype', 'iface-kind:slice': 'illegalparamtype', 'iface-kind:array': 'illegalparamtype',
+    'iface-kind:map': 'illegalparamtype', 'iface-kind:chan': 'illegalparamtype',
 }
 DEFECT_KEYS = {'ret-few': 'returns-count-typed-cause'}
 
@@ -459,7 +528,7 @@ def oracle(op, tag, obs):
     f = fields(obs)
     rejected = obs.startswith('rej:')
     form = op.split()[1]
-    if form in ('seqf', 'seqm', 'seqi'):
+    if form in ('seqf', 'seqm', 'seqi', 'rtf', 'rtm', 'rti'):
         return oracle_seq(op, tag, f, rejected)
     second = tag.startswith('second:')
     mistake = tag[7:] if second else tag
@@ -492,28 +561,55 @@ def oracle(op, tag, obs):
 
 
 def oracle_seq(op, tag, f, rejected):
-    """sequence ops: the observation is about the last executed configuration call, relative to the state right before it"""
-    nsteps = op.count(' ; ') + 1
-    mistake = tag[7:] if tag.startswith('second:') else tag
-    if tag != 'accept':
-        if not rejected:
-            return (f'mistake `{mistake}` (last call of the sequence) was accepted at configuration time', 'accepted:' + mistake.split(':')[0])
-        if mistake == 'when-few' and not f.get('walk', '').startswith('argsnotmatch'):
-            return (f'mistake `{mistake}`: the cause chain {f.get("chain")} walks to {f.get("walk")}, not to the typed cause argsnotmatch', 'cause:when-few')
+    """sequence / retry ops: the observation is about the last executed configuration call, relative to the state right before it"""
+    steps = op.split(' ; ')
+    last_kind = steps[-1].split()[0] if len(steps) > 1 else op.split()[-2 if False else 0]
+    toks = steps[-1].split()
+    for k in ('apply', 'applyval', 'return', 'when', 'returns', 'andreturn', 'in', 'matches', 'lookup', 'as', 'again'):
+        if k in toks:
+            last_kind = k
+    if tag.startswith('rt:'):
+        expect = tag[3:].split(',')
+        trail = f.get('trail', '').split(',')
+        if len(trail) != len(expect):
+            return (f'probe ran {len(trail)} of {len(expect)} calls', None)
+        for i, (e, got) in enumerate(zip(expect, trail)):
+            if e == 'R' and not got.startswith('rej:'):
+                return (f'call {i} of the sequence (`{steps[i] if i < len(steps) else "?"}`) is a configuration mistake that was rejected the '
+                        f'first time but is accepted now: {f.get("trail")}', 'accepted:retry')
+        mistake = 'retry' if expect[-1] == 'R' else 'accept'
+    else:
+        mistake = tag[7:] if tag.startswith('second:') else tag
+        if tag != 'accept':
+            if not rejected:
+                return (f'mistake `{mistake}` (last call of the sequence) was accepted at configuration time', 'accepted:' + mistake.split(':')[0])
+            if mistake == 'when-few' and not f.get('walk', '').startswith('argsnotmatch'):
+                return (f'mistake `{mistake}`: the cause chain {f.get("chain")} walks to {f.get("walk")}, not to the typed cause argsnotmatch', 'cause:when-few')
+    before, beh = f.get('before'), f.get('beh')
     if rejected:
-        before, beh = f.get('before'), f.get('beh')
         if f.get('diff', 'none') != 'none':
-            return (f'rejected call (step {f.get("step")}) changed the executable image ({f["diff"]})', 'text-changed')
-        if before in ('orig', 'cb', 'nil'):
-            # the target was not mocked by this mocker when the rejected call started: it must not be now
+            return (f'rejected call (`{steps[-1]}`) changed the executable image ({f["diff"]})', 'text-changed')
+        if before in ('orig', 'cb', 'nil') or last_kind not in ('returns', 'matches'):
+            # the rejected call must leave the target answering exactly as before (only a multi-group Returns/Matches on an
+            # already mocked target may have installed its earlier groups)
             if beh != before:
-                return (f'rejected call (step {f.get("step")}) changed the target\'s behaviour {before} -> {beh}', 'behaviour-changed')
+                return (f'rejected call (`{steps[-1]}`) changed the target\'s behaviour {before} -> {beh}', 'behaviour-changed')
         elif beh not in ('stub', 'nomatch'):
-            return (f'after the rejected call (step {f.get("step")}) the earlier configuration no longer answers: {before} -> {beh}', 'behaviour-changed')
+            return (f'after the rejected call (`{steps[-1]}`) the earlier configuration no longer answers: {before} -> {beh}', 'behaviour-changed')
         if before == 'orig' and f.get('reg', 'none') not in ('none', 'stale'):
             return (f'rejected call left a usable patch registered ({f.get("reg")})', 'registry')
         if before == 'nil' and f.get('var', 'nil') != 'nil':
             return ('rejected interface mock still replaced the variable', 'iface-var')
+    elif tag.startswith('rt:') and last_kind in ('apply', 'return', 'returns') and beh in ('orig', 'nil') and 'R' in tag:
+        return (f'the correct call `{steps[-1]}` after a rejected one was accepted but the target is not mocked (behaves {beh})', 'retry-not-applied')
+    if 'meth' in f and f['meth'] != 'nil':
+        named = op.split()[2]
+        for part in f['meth'].split(','):
+            n, b = part.split(':', 1)
+            if n != named and b != 'unimpl':
+                return (f'interface mock of method {named} also changed method {n} ({b})', 'iface-other-method')
+            if n == named and b == 'unimpl':
+                return (f'interface mock of method {named} did not reach that method ({f["meth"]})', 'iface-other-method')
     if f.get('after', 'ok') != 'ok':
         return (f'after this sequence a correct mock of the same target no longer works: {f["after"]}', 'after')
     return None
@@ -607,7 +703,7 @@ def run(tier):
         proof['failed'].append(('goomdrv', 'driver does not build: ' + derr[-500:]))
     else:
         diffs = C.diff_streams(ops, [strip_after(x) for x in impl], model)
-    if not bad:
+    if not out.violations:      # (failures that match a known finding do not hide a broken proof or correspondence)
         if diffs:
             i, op, a, b = diffs[0]
             out.violation(f'model and implementation disagree on `{op}`',
